@@ -6,17 +6,38 @@ namespace Pcore.Format
 
 /-- what fmt makes of the format handed over agrees with the Format record (established for every parsed format by
     `parseFormat_goOK`; decidable for a concrete format) -/
-def GoOK (f : Fmt) : Prop :=
+def GoOK0 (f : Fmt) : Prop :=
   match goParse (goFormat f) with
   | some g => g.verb = f.letter ∧ g.wid = f.width ∧ g.prec = f.prec ∧ g.minus = f.left ∧ g.sharp = f.alt ∧ g.zero = f.zeroPad ∧
       ((g.plus || g.space) = f.plus.isSome)
   | none => False
 
-instance (f : Fmt) : Decidable (GoOK f) := by unfold GoOK; split <;> infer_instance
+instance (f : Fmt) : Decidable (GoOK0 f) := by unfold GoOK0; split <;> infer_instance
 
-theorem GoOK.spec {f : Fmt} (h : GoOK f) : ∃ g, goParse (goFormat f) = some g ∧ g.verb = f.letter ∧ g.wid = f.width ∧
+/-- a format string handed to fmt parses to a directive with the verb `c` -/
+def VerbOK (fm : Str) (c : Char) : Prop :=
+  match goParse fm with
+  | some g => g.verb = c
+  | none => False
+
+instance (fm : Str) (c : Char) : Decidable (VerbOK fm c) := by unfold VerbOK; split <;> infer_instance
+
+/-- the format strings the float path derives with `unParse` are understood by fmt too -/
+def FloatOK (f : Fmt) : Prop :=
+  VerbOK (goFormat (withoutWidth f)) f.letter ∧ VerbOK (goFormat (replaceFormatChar f 'e')) 'e' ∧
+  VerbOK (goFormat (replaceFormatChar f 'E')) 'E'
+
+instance (f : Fmt) : Decidable (FloatOK f) := by unfold FloatOK; infer_instance
+
+/-- every format string pcore hands to fmt for this Format is a directive fmt understands, with the record's fields -/
+def GoOK (f : Fmt) : Prop := GoOK0 f ∧ FloatOK f
+
+instance (f : Fmt) : Decidable (GoOK f) := by unfold GoOK; infer_instance
+
+theorem GoOK.spec {f : Fmt} (h' : GoOK f) : ∃ g, goParse (goFormat f) = some g ∧ g.verb = f.letter ∧ g.wid = f.width ∧
     g.prec = f.prec ∧ g.minus = f.left ∧ g.sharp = f.alt ∧ g.zero = f.zeroPad := by
-  unfold GoOK at h
+  have h := h'.1
+  unfold GoOK0 at h
   split at h
   · rename_i g hg; exact ⟨g, hg, h.1, h.2.1, h.2.2.1, h.2.2.2.1, h.2.2.2.2.1, h.2.2.2.2.2.1⟩
   · exact absurd h id
@@ -85,6 +106,12 @@ theorem fmtIntCore_width (f : Fmt) (i : Int) (w : Nat) (hw : f.width = some w) (
         · rw [if_pos h4] at h; cases h; exact applyStringFlags_width f _ _ w hw
         · rw [if_neg h4] at h; cases h
 
+theorem exceptRes_text (r : Except FaultKind Str) (k : Str → Str) (s : Str) (h : exceptRes r k = .text s) :
+    ∃ x, s = k x := by
+  cases r with
+  | ok x => simp [exceptRes] at h; exact ⟨x, h.symm⟩
+  | error e => simp [exceptRes] at h
+
 theorem fmtFloat_width (io : FloatIO) (f : Fmt) (bits : Nat) (w : Nat) (hw : f.width = some w) (hgo : GoOK f)
     (hfl : isFloatLetter f.letter = false) (s : Str) (h : fmtFloat io f bits = .text s) : w ≤ s.length := by
   unfold fmtFloat at h
@@ -92,7 +119,9 @@ theorem fmtFloat_width (io : FloatIO) (f : Fmt) (bits : Nat) (w : Nat) (hw : f.w
   · rw [if_pos h1] at h; exact fmtIntCore_width f _ w hw hgo s h
   · rw [if_neg h1] at h
     by_cases h2 : f.letter = 'p'
-    · rw [if_pos h2] at h; cases h; exact applyStringFlags_width f _ _ w hw
+    · rw [if_pos h2] at h
+      obtain ⟨x, rfl⟩ := exceptRes_text _ _ s h
+      exact applyStringFlags_width f _ _ w hw
     · rw [if_neg h2] at h
       have h3 : ¬ (decide (f.letter = 'e') || decide (f.letter = 'E') || decide (f.letter = 'f')) = true := by
         simp [isFloatLetter] at hfl ⊢; tauto
@@ -100,7 +129,9 @@ theorem fmtFloat_width (io : FloatIO) (f : Fmt) (bits : Nat) (w : Nat) (hw : f.w
         simp [isFloatLetter] at hfl ⊢; tauto
       rw [if_neg h3, if_neg h4] at h
       by_cases h5 : f.letter = 's'
-      · rw [if_pos h5] at h; cases h; exact applyStringFlags_width f _ _ w hw
+      · rw [if_pos h5] at h
+        obtain ⟨x, rfl⟩ := exceptRes_text _ _ s h
+        exact applyStringFlags_width f _ _ w hw
       · rw [if_neg h5] at h; cases h
 
 theorem fmtInt_width (io : FloatIO) (f : Fmt) (i : Int) (w : Nat) (hw : f.width = some w) (hgo : GoOK f)
